@@ -372,7 +372,7 @@ func vfRwsCase(f []string) string {
 // meanwhile pushes a Hello through Dispatch -> Recv from the punt side.  If Dispatch returns while Tick is
 // still inside the channel, two goroutines were inside one ControlChannel at once ("recv=returned");
 // with mutual exclusion Dispatch has to wait until the callback is released ("recv=blocked").
-func vfOverlapCase() string {
+func vfOverlapCase(op string) string {
 	c := New(logger.Get("l2tp"))
 	peer := net.IPv4(10, 0, 0, 2).To4()
 	local := net.IPv4(10, 0, 0, 1).To4()
@@ -420,7 +420,21 @@ func vfOverlapCase() string {
 	case <-entered: // the runner goroutine is now inside Tick -> send callback
 		done := make(chan struct{})
 		go func() {
-			_ = dispatch(t.LocalID, 2, 1, l2tppkt.BuildHello())
+			// a second goroutine enters the same channel through another exported entry point
+			switch op {
+			case "zlb":
+				_ = dispatch(t.LocalID, 2, 1, nil) // Dispatch -> RecvZLB
+			case "send":
+				_ = t.Channel.Send(l2tppkt.BuildHello(), time.Now()) // what the Hello scheduler does
+			case "setwin":
+				t.Channel.SetPeerWindow(8)
+			case "flush":
+				t.Channel.FlushAck()
+			case "nr":
+				_ = t.Channel.Nr()
+			default:
+				_ = dispatch(t.LocalID, 2, 1, l2tppkt.BuildHello()) // Dispatch -> Recv
+			}
 			close(done)
 		}()
 		select {
@@ -436,7 +450,7 @@ func vfOverlapCase() string {
 		close(release)
 	}
 	c.stopTunnelRunner(t.PeerIP, t.LocalID)
-	return "tick-in-send " + res
+	return "tick-in-send " + op + " " + res
 }
 
 // stopccn: a tunnel established through Dispatch with its real runner receives SCCCN and then StopCCN
@@ -545,7 +559,7 @@ func vfSccrqDupCase() string {
 	}
 	mu.Lock()
 	defer mu.Unlock()
-	return fmt.Sprintf("sccrqdup tunnels=%d", len(ts))
+	return fmt.Sprintf("sccrqdup tunnels=%d sccrp=%d", len(ts), sccrps)
 }
 
 // idle <gap>: the REAL runner loop with its real timers.  A tunnel is established through Dispatch (SCCRQ,
@@ -716,8 +730,8 @@ func vfDispGuard(line string) string {
 			done <- vfSccrqDupCase()
 		} else if len(f) == 1 && f[0] == "stopccn" {
 			done <- vfStopCCNCase()
-		} else if len(f) == 1 && f[0] == "overlap" {
-			done <- vfOverlapCase()
+		} else if len(f) == 2 && f[0] == "overlap" {
+			done <- vfOverlapCase(f[1])
 		} else if len(f) == 5 && f[0] == "rws" {
 			done <- vfRwsCase(f[1:])
 		} else if len(f) >= 3 && f[0] == "full" {
@@ -760,7 +774,7 @@ func TestVerifC16Dispatch(t *testing.T) {
 	// the real-time runner cases only sleep: run them all at once, before the CPU-bound cases
 	pre := map[int]chan string{}
 	for i, l := range lines {
-		if strings.HasPrefix(l, "runner ") {
+		if strings.HasPrefix(l, "runner ") || strings.HasPrefix(l, "overlap ") {
 			ch := make(chan string, 1)
 			pre[i] = ch
 			go func(l string) { ch <- vfDispGuard(l) }(l)
